@@ -111,6 +111,68 @@ def make_dyn_trace(job):
     return {"hdr": hdr, "ev": evs}
 
 
+def make_c04_trace(job):
+    """Worker: write/read round trips (C04) over programs of all three worlds."""
+    import random
+    from .gen import Gen
+    from .gen_inh import GenInh
+    from .gen_dyn import GenDyn
+    from .world import World, LIT_CORPUS, DOC_CORPUS
+    seed, profile, nops, opts = job
+    rng = random.Random(seed * 7919 + 13)
+    kind = ("eval", "inh", "dyn")[seed % 3]
+    g = {"eval": lambda: Gen(seed, "edit", p_lambda=0.4), "inh": lambda: GenInh(seed, "inherit"),
+         "dyn": lambda: GenDyn(seed)}[kind]()
+    defs = g.program()
+    # decorate: literal / picklable reference values, docs
+    sps = [tuple(p) for p in defs["sp"]]
+    for i in range(rng.choice([1, 2, 3])):
+        p = list(rng.choice(sps))
+        name = "l%d" % i
+        for row in defs["refs"]:
+            if row[0] == p:
+                row[1][name] = {"v": ["lit", rng.randrange(len(LIT_CORPUS)), [], ""],
+                                "mode": rng.choice(["auto", "absolute"])}
+    if rng.random() < 0.5:
+        defs["grefs"]["lg"] = {"v": ["lit", rng.randrange(len(LIT_CORPUS)), [], ""]}
+    docs = {"spaces": [], "cells": []}
+    for p in defs["sp"]:
+        if rng.random() < 0.5:
+            docs["spaces"].append([p, rng.randrange(len(DOC_CORPUS))])
+    for p, cs in defs["cells"]:
+        for c, rec in cs.items():
+            if defs["flib"][rec["f"]].get("style", "def") == "def" and rng.random() < 0.4:
+                docs["cells"].append([p, c, rng.choice([0, 1, 4, 5])])   # (docstring-safe entries)
+    defs["docs"] = docs
+    w = World(defs, track_handles=False)
+    try:
+        hdr = {"init": defs, "pdefs": w.project_defs(), "seed": seed, "profile": kind,
+               "recalc": False, "checkdefs": kind != "dyn", "world": "c04"}
+        evs = []
+
+        def queries():
+            qs = []
+            for sp in list(w.all_spaces()):
+                p, st = w.enc_space(sp)
+                for c in list(sp.cells):
+                    for args in _all_args(g, c)[:2]:
+                        qs.append([p, st, c, args])
+            return qs[:40]
+        k = 0
+        for i in range(nops):
+            if i in (nops // 2, nops - 1):
+                ev = w.apply({"op": "write_read", "queries": queries(), "chain": bool(opts.get("chain", k == 0))})
+                k += 1
+            else:
+                op = g.next_op()
+                ev = w.apply(op, deep=True)
+                g.update(op, ev["res"], ev)
+            evs.append(ev)
+    finally:
+        w.close()
+    return {"hdr": hdr, "ev": evs}
+
+
 def _all_args(g, c):
     ps = g.sigs[c]
     if not ps:
